@@ -167,7 +167,7 @@ func parseCfgToks(t []string) (cfgT, []string, error) {
 		return cfgT{}, nil, fmt.Errorf("short job list")
 	}
 	for k := 0; k < n; k++ {
-		c.Jobs = append(c.Jobs, job{vl.UnHex(t[3*k]), vl.UnHex(t[3*k+1]), t[3*k+2]})
+		c.Jobs = append(c.Jobs, job{Path: vl.UnHex(t[3*k]), Content: vl.UnHex(t[3*k+1]), Fail: t[3*k+2]})
 	}
 	return c, t[3*n:], nil
 }
@@ -306,28 +306,38 @@ func (h *harness) fail(in input, bad []string, observed string) {
 		var cands []cfgT
 		c := cur.Cfg
 		for k := len(c.Jobs) - 1; k >= 0; k-- { // drop job k (paths keep their identity)
-			d := cfgT{Conc: c.Conc, HasPP: c.HasPP}
+			d := cfgT{Conc: c.Conc, HasPP: c.HasPP, PrevViaPersist: c.PrevViaPersist}
 			d.Jobs = append(append([]job(nil), c.Jobs[:k]...), c.Jobs[k+1:]...)
 			cands = append(cands, d)
 		}
 		for k := range c.Jobs {
+			if c.Jobs[k].Prev != "" {
+				d := cfgT{Conc: c.Conc, HasPP: c.HasPP, PrevViaPersist: c.PrevViaPersist, Jobs: append([]job(nil), c.Jobs...)}
+				d.Jobs[k].Prev = ""
+				cands = append(cands, d)
+			}
+		}
+		if c.PrevViaPersist {
+			cands = append(cands, cfgT{Conc: c.Conc, HasPP: c.HasPP, Jobs: c.Jobs})
+		}
+		for k := range c.Jobs {
 			if c.Jobs[k].Fail != "o" {
-				d := cfgT{Conc: c.Conc, HasPP: c.HasPP, Jobs: append([]job(nil), c.Jobs...)}
+				d := cfgT{Conc: c.Conc, HasPP: c.HasPP, PrevViaPersist: c.PrevViaPersist, Jobs: append([]job(nil), c.Jobs...)}
 				d.Jobs[k].Fail = "o"
 				cands = append(cands, d)
 			} else {
 				continue
 			}
 			if c.Jobs[k].Fail == "b" || c.Jobs[k].Fail == "p" {
-				d := cfgT{Conc: c.Conc, HasPP: c.HasPP, Jobs: append([]job(nil), c.Jobs...)}
+				d := cfgT{Conc: c.Conc, HasPP: c.HasPP, PrevViaPersist: c.PrevViaPersist, Jobs: append([]job(nil), c.Jobs...)}
 				d.Jobs[k].Fail = "w"
 				cands = append(cands, d)
 			}
 		}
 		if c.Conc != 1 {
-			cands = append(cands, cfgT{Conc: 1, HasPP: c.HasPP, Jobs: c.Jobs})
+			cands = append(cands, cfgT{Conc: 1, HasPP: c.HasPP, PrevViaPersist: c.PrevViaPersist, Jobs: c.Jobs})
 			if c.Conc > 2 {
-				cands = append(cands, cfgT{Conc: c.Conc - 1, HasPP: c.HasPP, Jobs: c.Jobs})
+				cands = append(cands, cfgT{Conc: c.Conc - 1, HasPP: c.HasPP, PrevViaPersist: c.PrevViaPersist, Jobs: c.Jobs})
 			}
 		}
 		for _, d := range cands {
@@ -345,7 +355,7 @@ func (h *harness) fail(in input, bad []string, observed string) {
 		cur.Schedule = nil
 	}
 	exp := "nil only if every job was post-processed and written exactly once with its own content; an error if any dispatched job fails; no deadlock; no work of the call after it returned"
-	h.out.Fail(vl.OracleFail{Key: class + "|" + cur.Mode + "|" + cur.Cfg.toks(), What: "OnFinished: " + class,
+	h.out.Fail(vl.OracleFail{Key: class + "|" + cur.Mode + "|" + cur.Cfg.toks() + cur.Cfg.histToks(), What: "OnFinished: " + class,
 		Input: cur, Expected: exp, Observed: class + ": " + observed})
 }
 
@@ -353,7 +363,7 @@ func run(repo, dir string, seed uint64, tier, pathsFile string, batch, nbatch in
 	out := vl.NewOut(dir)
 	rng := vl.NewRng(seed*1000003 + uint64(batch))
 	h := &harness{out: out, rng: rng, wd: 400 * time.Millisecond, classes: map[string]int{}}
-	nCtl, maxN, maxK, nFree, nPersist := 2000, 6, 4, 300, 40
+	nCtl, maxN, maxK, nFree, nPersist := 2000, 6, 4, 300, 90
 	if tier == "thorough" {
 		nCtl, maxN, maxK, nFree, nPersist = 200000, 12, 16, 4000, 300
 	}
@@ -424,6 +434,19 @@ func run(repo, dir string, seed uint64, tier, pathsFile string, batch, nbatch in
 		cfg, _ := genCfg(rng, maxN, maxK)
 		cfg.Conc = runtime.GOMAXPROCS(0)
 		cfg.HasPP = true
+		hist := "fresh-directory"
+		if i%3 != 0 { // two thirds of the runs regenerate into a directory that holds a previous generation
+			cfg.PrevViaPersist = rng.Chance(40)
+			hist = "prepopulated-directly"
+			if cfg.PrevViaPersist {
+				hist = "second-persist-call"
+			}
+			for k := range cfg.Jobs {
+				cfg.Jobs[k].Prev = []string{"longer", "longer", "shorter", "equal", ""}[rng.Intn(5)]
+				out.Count("persist-previous:" + cfg.Jobs[k].Prev)
+			}
+		}
+		out.Count("persist-history:" + hist)
 		o, bad := runPersist(cfg)
 		out.Count("class:persist-e2e")
 		out.Count("persist-ret:" + strings.TrimRight(o.Ret, "0123456789"))
@@ -460,6 +483,24 @@ func (b *fakeBackend) PostProcess(path string, content []byte) ([]byte, error) {
 	return b.r.PostProcess(path, content)
 }
 
+// persistSetup registers a fault-injecting backend that "generates" the jobs and runs Generator.Generate.
+func persistSetup(full cfgT) (*generator.Generator, *plugin.Response, *runner) {
+	r := newRunner(full)
+	r.free = true
+	be := &fakeBackend{r: r}
+	for _, j := range full.Jobs {
+		name := j.Path
+		be.files = append(be.files, &plugin.Generated{Name: &name, Content: j.Content})
+	}
+	generator.VerifPoint = nil
+	g := &generator.Generator{}
+	if err := g.RegisterBackend(be); err != nil {
+		panic(err)
+	}
+	res := g.Generate(&generator.Arguments{Out: &generator.LangSpec{Language: "fake"}, Req: &plugin.Request{}, Log: backend.DummyLogFunc()})
+	return g, res, r
+}
+
 // runPersist drives Generator.Generate + Generator.Persist with a fault-injecting backend into a temp
 // directory; a write failure is provoked by making the parent "directory" of the file a regular file.
 func runPersist(cfg cfgT) (*outcome, []string) {
@@ -478,21 +519,53 @@ func runPersist(cfg cfgT) (*outcome, []string) {
 			os.WriteFile(blocker, []byte("x"), 0o644)
 			p = filepath.Join(blocker, "sub", fmt.Sprintf("f%d", k))
 		}
-		full.Jobs = append(full.Jobs, job{p, j.Content, j.Fail})
+		full.Jobs = append(full.Jobs, job{Path: p, Content: j.Content, Fail: j.Fail, Prev: j.Prev})
 	}
-	r := newRunner(full)
-	r.free = true
-	be := &fakeBackend{r: r}
-	for _, j := range full.Jobs {
-		name := j.Path
-		be.files = append(be.files, &plugin.Generated{Name: &name, Content: j.Content})
+	// previous generation: files of the same names that are longer / shorter / as long as the new bytes
+	prevDisk := map[int]string{}
+	{
+		pre := cfgT{Conc: cfg.Conc, HasPP: true}
+		var idx []int
+		for k, j := range full.Jobs {
+			if j.Prev == "" || j.Fail == "w" || j.Fail == "b" {
+				continue
+			}
+			var old string
+			switch j.Prev {
+			case "longer":
+				old = j.Content + "-stale-tail-of-the-previous-generation"
+			case "shorter":
+				old = ""
+			default: // equal
+				old = strings.Repeat("z", len(j.Content))
+			}
+			pre.Jobs = append(pre.Jobs, job{Path: j.Path, Content: old, Fail: "o"})
+			idx = append(idx, k)
+		}
+		if len(pre.Jobs) > 0 {
+			if cfg.PrevViaPersist {
+				g0, res0, _ := persistSetup(pre)
+				if err := g0.Persist(res0); err != nil {
+					panic(fmt.Sprintf("pre-population through Persist failed: %v", err))
+				}
+			} else {
+				for i, j := range pre.Jobs {
+					os.MkdirAll(filepath.Dir(j.Path), 0o755)
+					if err := os.WriteFile(j.Path, []byte(pre.expected(i)), 0o644); err != nil {
+						panic(err)
+					}
+				}
+			}
+			for _, k := range idx {
+				b, err := os.ReadFile(full.Jobs[k].Path)
+				if err != nil {
+					panic(err)
+				}
+				prevDisk[k] = string(b)
+			}
+		}
 	}
-	generator.VerifPoint = nil
-	g := &generator.Generator{}
-	if err := g.RegisterBackend(be); err != nil {
-		panic(err)
-	}
-	res := g.Generate(&generator.Arguments{Out: &generator.LangSpec{Language: "fake"}, Req: &plugin.Request{}, Log: backend.DummyLogFunc()})
+	g, res, r := persistSetup(full)
 	o := &outcome{}
 	done := make(chan error, 1)
 	go func() { done <- g.Persist(res) }()
@@ -549,8 +622,13 @@ func runPersist(cfg cfgT) (*outcome, []string) {
 		}
 		for k, j := range full.Jobs {
 			b, err := os.ReadFile(j.Path)
-			if !full.fails(k) && (err != nil || string(b) != full.expected(k)) {
+			if !full.fails(k) && err != nil {
 				bad = append(bad, "nil-but-not-all-written")
+				break
+			}
+			if !full.fails(k) && string(b) != full.expected(k) {
+				// the write is "file := content": nothing of a previous generation may survive
+				bad = append(bad, "nil-but-file-is-not-its-own-content")
 				break
 			}
 		}
@@ -561,8 +639,11 @@ func runPersist(cfg cfgT) (*outcome, []string) {
 		}
 	}
 	for k, j := range full.Jobs {
+		// on every path: a file is either completely the job's own content or untouched (previous generation / absent)
 		if b, err := os.ReadFile(j.Path); err == nil && string(b) != full.expected(k) {
-			bad = append(bad, "wrong-content")
+			if old, had := prevDisk[k]; !(had && string(b) == old) && !contains(bad, "nil-but-file-is-not-its-own-content") {
+				bad = append(bad, "wrong-content")
+			}
 		}
 	}
 	r.mu.Lock()
@@ -599,7 +680,7 @@ func replay(repo, file string) error {
 		if in.Mode == "controlled" {
 			in.Schedule = o.Releases
 		}
-		fails = append(fails, vl.OracleFail{Key: bad[0] + "|" + in.Mode + "|" + in.Cfg.toks(), What: "OnFinished: " + bad[0], Input: in,
+		fails = append(fails, vl.OracleFail{Key: bad[0] + "|" + in.Mode + "|" + in.Cfg.toks() + in.Cfg.histToks(), What: "OnFinished: " + bad[0], Input: in,
 			Expected: "property C19", Observed: fmt.Sprintf("%s: ret=%s written=%s deadlock=%v leak=%v events=%s", strings.Join(bad, ","), o.Ret, o.Written, o.Deadlock, o.Leak, strings.Join(o.Events, " "))})
 	}
 	h.out.Close()
